@@ -14,7 +14,9 @@ A fault is a dict  {"instant": <str>, "how": <str>, ...}  attached to one task o
                                                                              inside Connection._send*, then kills
   timer              `delay` seconds after task start, whatever it is doing  threading.Timer (the design probe)
 
-  how: SIGKILL | SIGTERM | SIGSEGV (os.kill(os.getpid(), sig)) | exit (os._exit(3)) | exit0 (os._exit(0))
+  how: a signal sent to oneself with os.kill(os.getpid(), n): SIGKILL SIGTERM SIGSEGV SIGABRT SIGBUS SIGUSR1 SIGHUP, the
+       real-time signals SIGRTMIN, SIGRTMIN+1, SIGRTMAX-1, SIGRTMAX (the +k/-k ones have no name in signal.Signals);
+       exit (os._exit(3)) | exit0 | exit1 | exit255 ; sysexit (sys.exit(7): NOT a death)
 
 No joblib source is touched: every hook is a pickle / finaliser hook of a harness object.
 """
@@ -25,18 +27,33 @@ import sys
 import threading
 import time
 
-_SIGS = {"SIGKILL": signal.SIGKILL, "SIGTERM": signal.SIGTERM, "SIGSEGV": signal.SIGSEGV}
+def signum(how):
+    """'SIGKILL', 'SIGUSR1', ... or a real-time signal 'SIGRTMIN', 'SIGRTMIN+1', 'SIGRTMAX-1' -> its number; else None.
+    (SIGRTMIN+k for 0 < k < SIGRTMAX-SIGRTMIN has NO name in `signal.Signals`.)"""
+    base, off = how, 0
+    for sep in "+-":
+        if sep in how:
+            base, k = how.split(sep)
+            off = int(k) if sep == "+" else -int(k)
+    if base.startswith("SIG") and hasattr(signal, base):
+        return int(getattr(signal, base)) + off
+    return None
+
+
+_EXITS = {"exit": 3, "exit0": 0, "exit1": 1, "exit255": 255}
 
 
 def die(how):
-    """Abrupt death of the calling process."""
-    if how in _SIGS:
-        os.kill(os.getpid(), _SIGS[how])
+    """Abrupt death of the calling process — or, for 'sysexit', `sys.exit(7)` (a SystemExit raised where we stand:
+    NOT a death; what loky makes of it depends on where it is raised)."""
+    n = signum(how)
+    if n is not None:
+        os.kill(os.getpid(), n)
         time.sleep(10)  # the signal is delivered on return from the syscall; never reached
-    elif how == "exit":
-        os._exit(3)
-    elif how == "exit0":
-        os._exit(0)
+    elif how in _EXITS:
+        os._exit(_EXITS[how])
+    elif how == "sysexit":
+        sys.exit(7)
     os._exit(98)  # unknown `how`: still die, visibly
 
 
